@@ -130,7 +130,7 @@ def build(variant, programs=('drv',), extra_defs=()):
                     if prog == 'fuzz_target':
                         hflags = cflags
                 tmp = exe + '.tmp.%d' % os.getpid()
-                _run([cc] + COMMON + hflags + list(extra_defs) + inc + ['-I', HARNESS] + srcs + [lib] + ld + extra +
+                _run([cc] + COMMON + ['-Werror=implicit-function-declaration'] + hflags + list(extra_defs) + inc + ['-I', HARNESS] + srcs + [lib] + ld + extra +
                      ['-lpthread', '-lm', '-o', tmp])
                 os.rename(tmp, exe)
             res[prog] = exe
